@@ -269,6 +269,12 @@ func (l *listener) Stop() error {
 	l.mu.Lock()
 	conns := l.conns
 	l.conns = nil
+	// The registry is dropped, removeConn will not find these
+	// connections any more, so count them as destroyed here.
+	for range conns {
+		l.stats.CxDestroyTotal.Inc()
+		l.stats.CxActive.Dec()
+	}
 	l.mu.Unlock()
 
 	if l.ln != nil {
